@@ -109,15 +109,13 @@ static struct SparseMatrix *gv_new_SparseMatrixT(const struct SparseMatrix *sm)
            It is a definition (such an array exists and is unique for every cind and g); its defining recurrence
            SEQ_AX(q) is instantiated at range-checked positions, the base facts gv_seq[ncnt_] == 0 and
            0 <= gv_seq[0] <= ncnt_ are harness/contract preconditions.
-   gv_ltm, gv_eqm   ghost counters filled by the counting loop: #{cind < g-1}, #{cind == g-1}
-   gv_G0   the indeterminate value found in trptr[cols_+2] (never initialised by the code)                    */
+   gv_ltm, gv_eqm   ghost counters filled by the counting loop: #{cind < g-1}, #{cind == g-1}                 */
 Index  gv_c0;
 Index *gv_seq;
-Index  gv_ltm, gv_eqm, gv_G0;
+Index  gv_ltm, gv_eqm;
 #define SEQ_AX(S, q)                                                                                      \
   (0 <= gv_seq[(q) + 1] && gv_seq[(q) + 1] <= (S)->ncnt_ - ((q) + 1) &&                                   \
    gv_seq[q] == gv_seq[(q) + 1] + ((S)->cind[q] == gv_c0 ? 1 : 0))
-#define GSMALL (gv_G0 <= INT_MAX - MAXNNZ)   /* the indeterminate slot value leaves room for ncnt_ increments */
 #define GIN(S) (1 <= gv_c0 && gv_c0 <= (S)->cols_)
 #define SEQ0 (gv_seq[0])
 #define LTG ((long)gv_ltm + gv_eqm)                      /* #{cind < g}: start of row g in the result */
@@ -312,7 +310,7 @@ __CPROVER_requires(self->cols_ >= 1 ==> GIN(self))
 __CPROVER_requires(__CPROVER_rw_ok(gv_seq, ((long)self->ncnt_ + 1) * sizeof(Index)))
 __CPROVER_requires(gv_seq[self->ncnt_] == 0 && 0 <= gv_seq[0] && gv_seq[0] <= self->ncnt_)
 __CPROVER_requires(!SAME(gv_seq, self) && !SAME(gv_seq, self->nonz) && !SAME(gv_seq, self->cind) && !SAME(gv_seq, self->rptr))
-__CPROVER_assigns(gv_ltm, gv_eqm, gv_G0)
+__CPROVER_assigns(gv_ltm, gv_eqm)
 __CPROVER_ensures(__CPROVER_rw_ok(__CPROVER_return_value, sizeof(struct SparseMatrix)) && !SAME(__CPROVER_return_value, self))
 __CPROVER_ensures(__CPROVER_return_value->rows_ == self->cols_ && __CPROVER_return_value->cols_ == self->rows_ &&
                   __CPROVER_return_value->rcnt_ == self->cols_ && __CPROVER_return_value->ncnt_ == self->ncnt_)
@@ -336,21 +334,19 @@ if (self->ncnt_ > 0) GV_INST(ENT_IN(self, 0), WF_ENT(self, 0));      /* an entry
 __CPROVER_assigns(i, __CPROVER_object_whole(trptr))
 __CPROVER_loop_invariant(0 <= i && i <= trows_ + 3 && (i > 1 ==> trptr[1] == 0) && (i > 2 ==> trptr[2] == 0) &&
                          (GIN(self) ==> ((i > gv_c0 + 1 ==> trptr[gv_c0 + 1] == 0) &&
-                                         ((gv_c0 < trows_ && i > gv_c0 + 2) ==> trptr[gv_c0 + 2] == 0))))
+                                         (i > gv_c0 + 2 ==> trptr[gv_c0 + 2] == 0))))
 __CPROVER_decreases((long)trows_ + 3 - i)
 
 //@ pre SparseMatrix_transpose 2
 #ifndef GV_BOUNDED
-gv_ltm = 0; gv_eqm = 0; gv_G0 = trptr[trows_ + 2];
-/* (the slot trptr[cols_+2] used to be uninitialised here; fixed in /repo 23facee: the exclusion predicate is gone) */
+gv_ltm = 0; gv_eqm = 0;
 #endif
 //@ loop SparseMatrix_transpose 2
 __CPROVER_assigns(i, __CPROVER_object_whole(trptr), gv_ltm, gv_eqm)
 __CPROVER_loop_invariant(0 <= i && i <= self->ncnt_ && trptr[1] == 0 && (trows_ >= 1 ==> trptr[2] == 0) &&
                          0 <= gv_ltm && 0 <= gv_eqm &&
                          (GIN(self) ==> (0 <= gv_seq[i] && gv_seq[i] <= SEQ0 &&
-                                         (gv_c0 < trows_ ? trptr[gv_c0 + 2] == SEQ0 - gv_seq[i]
-                                                         : (GSMALL ==> (long)trptr[gv_c0 + 2] == (long)gv_G0 + SEQ0 - gv_seq[i])) &&
+                                         trptr[gv_c0 + 2] == SEQ0 - gv_seq[i] &&
                                          trptr[gv_c0 + 1] == gv_eqm && (gv_c0 <= 2 ==> gv_ltm == 0) && (gv_c0 == 1 ==> gv_eqm == 0) &&
                                          LTG + (SEQ0 - gv_seq[i]) <= i && (gv_c0 == trows_ ==> LTG + (SEQ0 - gv_seq[i]) == i))))
 __CPROVER_decreases((long)self->ncnt_ - i)
@@ -361,7 +357,7 @@ if (GIN(self)) GV_INST(ENT_IN(self, i), SEQ_AX(self, i));
 /* quantified invariant B2 at the slot about to be incremented (proved above for slots g+1 and g+2) */
 if (!(GIN(self) && (self->cind[i] == gv_c0 || self->cind[i] == gv_c0 - 1))) {
   if (self->cind[i] < trows_) GV_INST(1 <= self->cind[i] && self->cind[i] < trows_, 0 <= trptr[self->cind[i] + 2] && trptr[self->cind[i] + 2] <= i);
-  else GV_INST(self->cind[i] == trows_, GSMALL ==> ((long)gv_G0 <= trptr[trows_ + 2] && trptr[trows_ + 2] <= (long)gv_G0 + i));
+  else GV_INST(self->cind[i] == trows_, 0 <= trptr[trows_ + 2] && trptr[trows_ + 2] <= i);
 }
 #endif
 //@ tail SparseMatrix_transpose 2
